@@ -24,7 +24,7 @@ enum { OP_END = 0, OP_CR = 1, OP_JN = 2, OP_TJ = 3, OP_DT = 4, OP_YD = 5, OP_EX 
        OP_BAR = 15, OP_JCDEC = 16, OP_JCWAIT = 17, OP_UCWAIT = 18, OP_UCSIG = 19,
        OP_FEWL = 20, OP_FEMS = 21, OP_ONCE = 22, OP_KSET = 23, OP_KGET = 24, OP_SLEEP = 25,
        OP_TLK = 26, OP_TJN = 27, OP_SETV = 28, OP_WAITV = 29, OP_NEST = 30, OP_PROBE = 31,
-       OP_KCREATE = 32, OP_KDELETE = 33, OP_CANCEL = 34, OP_TESTCANCEL = 35, OP_BUSY = 36, OP_FELK = 37, OP_FEUL = 38, OP_WAITGE = 39, OP_CBCO = 40, OP_JCPOKE = 41 };
+       OP_KCREATE = 32, OP_KDELETE = 33, OP_CANCEL = 34, OP_TESTCANCEL = 35, OP_BUSY = 36, OP_FELK = 37, OP_FEUL = 38, OP_WAITGE = 39, OP_CBCO = 40, OP_JCPOKE = 41, OP_DEEP = 42 };
 enum { F_PF = 1, F_DETACH = 2, F_STACK = 4, F_ATTR = 8, F_NULLID = 16, F_DIRTY = 32 };
 
 typedef struct { int op, a, b, c; } op_t;
@@ -156,6 +156,16 @@ static __attribute__((noinline)) int probed_op(int k, op_t *o, long *ret, unsign
   for (i = 0; i < 160; i++) if (arr[i] != pat * 31 + (unsigned long)i * 0x9e3779b97f4a7c15UL) sbad++;
   U("U_Probe", 4, (long)k, (long)o->op, mask, (long)sbad);
   *ret = c.ret; return c.fin;
+}
+/* use most of a stack of `bytes` bytes: recurse in frames of about 1 KiB down to about 60% of it (the rest is left to the harness's own frames), yield at the bottom (the
+   thread is suspended with its deepest page in use), check the frames on the way back */
+static __attribute__((noinline)) long deep_rec(int k, long left, int opt){
+  volatile unsigned long pad[120]; long i, bad = 0;
+  for (i = 0; i < 120; i++) pad[i] = 0xabcd0000UL + (unsigned long)(left ^ i);
+  if (left > 1100) bad = deep_rec(k, left - 1024, opt);
+  else yield_(k, opt);
+  for (i = 0; i < 120; i++) if (pad[i] != 0xabcd0000UL + (unsigned long)(left ^ i)) bad++;
+  return bad;
 }
 static long run_ops(int k){
   body_t *b = &bodies[k]; int i; long ret = 0;
@@ -312,6 +322,8 @@ static int exec_op(int k, op_t *o, long *ret){
       U("U_LockCall", 2, (long)k, VMX(fes[o->a].mutex)); myth_felock_lock(&fes[o->a]); U("U_LockRet", 2, (long)k, VMX(fes[o->a].mutex)); break;
     case OP_FEUL:
       U("U_UnlockCall", 2, (long)k, VMX(fes[o->a].mutex)); myth_felock_unlock(&fes[o->a]); U("U_UnlockRet", 2, (long)k, VMX(fes[o->a].mutex)); break;
+    case OP_DEEP: { long bad = deep_rec(k, (long)o->a * 4096L * 60 / 100 - 3072, o->b);   /* a = stack size in pages, b = yield option */
+        U("U_Probe", 4, (long)k, (long)o->op, 0L, bad); break; }
     case OP_PROBE: break;
     default: fprintf(stderr, "mythprog: unknown op %d\n", o->op); exit(2);
     }
